@@ -1,4 +1,4 @@
-import TxV.Core.Example
+import TxV.Core.Example2
 /-!
 # C03 — a transaction runs only when it is fully enabled
 
@@ -38,14 +38,14 @@ theorem c03_disabled_call_locks (hg : Grants D v run) {t : Nat} (ht : D.isTrans 
     v.ready c.callee = true :=
   disabled_call_locks hg ht hr hc hdis
 
--- OBLIGATION c03_validate_nonexclusive : validation, nonexclusive callee (under driver-checked hypothesis Bounded = boundedB): the predicate holds for the argument of every enabled call chain of the running transaction
+-- OBLIGATION c03_validate_nonexclusive : validation, nonexclusive callee (under hypothesis Bounded, proved from the executable validateAll: Bridge.validateAll_sound): the predicate holds for the argument of every enabled call chain of the running transaction
 theorem c03_validate_nonexclusive (hb : Bounded D) (hg : Grants D v run) {t m : Nat}
     (ht : D.isTrans t = true) (hr : run t = true) (hne : D.nonexcl m = true)
     (hv : (D.body m).hasValidate = true) {ch : List Call} (hc : IsChain D t ch)
     (htg : target ch = some m) (he : chainEn v ch = true) : v.pred m (argOf v ch) = true :=
   validTerm_nonexclusive hb hne ((run_requires hg ht hr).2.2.1 m ⟨ch, hc, htg⟩ hv) hc htg he
 
--- OBLIGATION c03_validate_exclusive : validation, exclusive callee (under driver-checked hypotheses Accepted, ExclSem): the predicate holds for the argument of the (unique) enabled call chain — the one-hot multiplexer of manager.py:536 delivers exactly that argument (any number of call chains)
+-- OBLIGATION c03_validate_exclusive : validation, exclusive callee (under hypothesis Accepted (proved from the executable elaborate: Bridge.elaborate_static) and driver-checked per-cycle hypotheses ExclSem): the predicate holds for the argument of the (unique) enabled call chain — the one-hot multiplexer of manager.py:536 delivers exactly that argument (any number of call chains)
 theorem c03_validate_exclusive (hA : Accepted D S) (hs : ExclSem D v) (hg : Grants D v run) {t m : Nat}
     (ht : D.isTrans t = true) (hr : run t = true) (hne : D.nonexcl m = false)
     (hv : (D.body m).hasValidate = true) {ch : List Call} (hc : IsChain D t ch)
@@ -57,7 +57,8 @@ theorem c03_validate_exclusive (hA : Accepted D S) (hs : ExclSem D v) (hg : Gran
 calls one of which is disabled (site 4, `Else` branch); `M3` (reached by the running `T0`) has a
 validator -/
 example : grantsB Ex.D Ex.v Ex.run = true ∧ boundedB Ex.D = true ∧ Ex.run 2 = true ∧ Ex.v.en 4 = false ∧
-    reachesB Ex.D 2 4 = true ∧ (Ex.D.body 3).hasValidate = true ∧ reachesB Ex.D 0 3 = true := by decide
+    reachesB Ex.D 2 4 = true ∧ (Ex.D.body 3).hasValidate = true ∧ reachesB Ex.D 0 3 = true :=
+  ⟨Ex.grants, Ex.bounded, rfl, rfl, by decide, rfl, by decide⟩
 
 end TxV.Core
 
